@@ -42,6 +42,7 @@ def runLine (line : String) : Driver.Result :=
     if impl.startsWith "ok" then ⟨"P", s!"faultaccept {line} cut={cut} {how}: impl [{impl}] violates C16: key=accepted-fragment-of-a-failed-read"⟩
     else if impl.startsWith "panic" then ⟨"P", s!"faultaccept {line} cut={cut}: {impl} violates C16: key=panic"⟩
     else ⟨"S", ""⟩
+  | ["tfamily", _, ops, obs] => Driver.AliasCase.runFamily ops obs
   | ["overlong", _, size, tail, impl] =>
     -- C16: the bytes of a line that could not be delivered (longer than the importer's limit) are not lines of the
     -- input: the complete object they end with must never come out as an accepted row
